@@ -270,6 +270,95 @@ func runTopology(rec *mon.Recorder, c int) {
 		}
 	}
 
+	// phase 2b: a node fails just as another node's answer completes. The collector is then busy with that answer
+	// (not parked waiting), which is the moment at which a worker that says more or less than "one message per
+	// node" is not noticed. The victim's failure is gated on the completion of another node's handler for the
+	// same query.
+	if nodes > 1 {
+		var dmu sync.Mutex
+		done := map[float32]chan struct{}{}
+		gateFor := func(q0 float32) chan struct{} {
+			dmu.Lock()
+			defer dmu.Unlock()
+			c := done[q0]
+			if c == nil {
+				c = make(chan struct{})
+				done[q0] = c
+			}
+			return c
+		}
+		var lateVictim int32 = -1
+		for _, n := range cl.Nodes {
+			n := n
+			n.SetOnStreamDone(func(method string, req interface{}, err error) {
+				r, ok := req.(*pb.SearchPartitionsRequest)
+				if !ok || method != "SearchPartitions" || len(r.Query) == 0 || int32(n.Idx) == atomic.LoadInt32(&lateVictim) {
+					return
+				}
+				c := gateFor(r.Query[0])
+				dmu.Lock()
+				select {
+				case <-c:
+				default:
+					close(c)
+				}
+				dmu.Unlock()
+			})
+		}
+		lateN := rec.N(240, 1200)
+		for s := 0; s < lateN; s++ {
+			victim := cl.Nodes[rng.Intn(nodes)]
+			atomic.StoreInt32(&lateVictim, int32(victim.Idx))
+			spin := time.Duration(rng.Intn(120)) * time.Microsecond
+			victim.SetFault("SearchPartitions", sim.RPCFault{Err: errors.New("injected late search failure"), Gate: func(gctx context.Context, req interface{}) {
+				r, ok := req.(*pb.SearchPartitionsRequest)
+				if !ok || len(r.Query) == 0 {
+					return
+				}
+				select {
+				case <-gateFor(r.Query[0]):
+				case <-time.After(30 * time.Millisecond): // no other node is consulted for this query
+				case <-gctx.Done():
+				}
+				if spin > 0 {
+					t0 := time.Now()
+					for time.Since(t0) < spin {
+					}
+				}
+			}})
+			var via *sim.Node
+			for {
+				via = cl.Nodes[rng.Intn(nodes)]
+				if via != victim {
+					break
+				}
+			}
+			q, k := newQuery(), ks[rng.Intn(len(ks))]
+			sctx, cancel := context.WithTimeout(ctx, 5*time.Second)
+			res, err := via.Dataset(dsId).Search(sctx, q, k)
+			cancel()
+			victim.ClearFaults()
+			_, asked := rpcsFor(q)
+			rec.Count("late_failure_searches", 1)
+			if asked[victim.Id] {
+				rec.Count("late_failure_searches_hitting_victim", 1)
+				if err == nil {
+					rec.Violation("search:success-despite-failed-node:late-error", fmt.Sprintf("%s: node %d was consulted and failed just as another node's answer completed; Search returned %d items without error", desc, victim.Id, len(res)), replayBase)
+					break
+				}
+			} else if err == nil {
+				if !checkResult(outcome{q, k, res, err}, "fault-elsewhere") {
+					break
+				}
+				checked++
+			}
+		}
+		atomic.StoreInt32(&lateVictim, -1)
+		for _, n := range cl.Nodes {
+			n.ClearFaults()
+		}
+	}
+
 	// phase 3: stress aimed at the collector / closer interleaving
 	for _, procs := range []int{2, 16} {
 		prev := runtime.GOMAXPROCS(procs)
